@@ -27,7 +27,7 @@ Theorem C16_run_refines_spec : forall (o : oracle) (c : subcmd) (fl : cflags) (p
   perm_oracle o -> wf_pkgb p = true -> flags_okb fl = true -> known_class c fl p = false ->
   match spec c fl p with
   | EFail => exists d, run o c fl p = Failed d
-  | EFiles fs => run o c fl p = Done fs (o _ (map fst fs)) /\ forallb (anchored c p) (map fst fs) = true
+  | EFiles fs => run o c fl p = Done (o _ fs) (map fst (o _ fs)) /\ forallb (anchored c p) (map fst fs) = true
   end.
 Proof. exact run_refines_spec. Qed.
 Print Assumptions C16_run_refines_spec.
@@ -45,8 +45,8 @@ Theorem C16_type_list_exact : forall o c fl p,
   perm_oracle o -> wf_pkgb p = true -> fl_specified fl = true -> fl_sep fl = true -> fl_file fl = "" ->
   (forall T, In T (fl_types fl) -> nameable c p T = true) ->
   NoDup (map (fun T => per_type_name c (decl_file p T) T) (fl_types fl)) ->
-  run o c fl p = Done (map (fun T => (per_type_name c (decl_file p T) T, [T])) (fl_types fl))
-                      (o _ (map (fun T => per_type_name c (decl_file p T) T) (fl_types fl))).
+  run o c fl p = Done (o _ (map (fun T => (per_type_name c (decl_file p T) T, [T])) (fl_types fl)))
+                      (map fst (o _ (map (fun T => (per_type_name c (decl_file p T) T, [T])) (fl_types fl)))).
 Proof. exact type_list_exact. Qed.
 Print Assumptions C16_type_list_exact.
 
@@ -96,7 +96,8 @@ Theorem C16_file_mode_sep_exact : forall o c fl p f,
   In f (p_files p) -> fl_file fl = f_name f -> ends_with ".go" (f_name f) = true ->
   let sel := map ts_name (filter (listable c p) (top_specs f)) in
   let name := fun T => per_type_name c (f_name f) T in
-  (NoDup (map name sel) -> run o c fl p = Done (map (fun T => (name T, [T])) sel) (o _ (map name sel))) /\
+  (NoDup (map name sel) -> run o c fl p = Done (o _ (map (fun T => (name T, [T])) sel))
+                                                   (map fst (o _ (map (fun T => (name T, [T])) sel)))) /\
   (~ NoDup (map name sel) -> exists d, run o c fl p = Failed d).
 Proof. exact file_mode_sep_exact. Qed.
 Print Assumptions C16_file_mode_sep_exact.
@@ -108,9 +109,9 @@ Theorem C16_file_mode_exact : forall o c fl p f,
   In f (p_files p) -> fl_file fl = f_name f -> ends_with ".go" (f_name f) = true ->
   let sel := map ts_name (filter (listable c p) (top_specs f)) in
   run o c fl p = match sel with
-                 | [] => Done [] (o _ [])
+                 | [] => Done [] []
                  | _ => Done [(trim_go (f_name f) ++ "." ++ shootcmd c ++ ".go", sel)]
-                             (o _ [trim_go (f_name f) ++ "." ++ shootcmd c ++ ".go"])
+                             [trim_go (f_name f) ++ "." ++ shootcmd c ++ ".go"]
                  end.
 Proof. exact file_mode_exact. Qed.
 Print Assumptions C16_file_mode_exact.
@@ -122,17 +123,22 @@ Theorem C16_star_mode_exact : forall o c fl p,
   all_in_one_file fl p <> "" ->
   let sel := map ts_name (filter (listable c p) (pkg_specs p)) in
   run o c fl p = match sel with
-                 | [] => Done [] (o _ [])
+                 | [] => Done [] []
                  | _ => Done [(trim_go (all_in_one_file fl p) ++ "." ++ shootcmd c ++ ".go", sel)]
-                             (o _ [trim_go (all_in_one_file fl p) ++ "." ++ shootcmd c ++ ".go"])
+                             [trim_go (all_in_one_file fl p) ++ "." ++ shootcmd c ++ ".go"]
                  end.
 Proof. exact star_mode_exact. Qed.
 Print Assumptions C16_star_mode_exact.
 
-(* ---- every written file is listed in the success message: for EVERY input
-   (no guard at all), whatever the iteration order of srcMap *)
+(* ---- every written file is listed in the success message, in the order written.
+   BY CONSTRUCTION OF THE MODEL: main's loop is modelled as it is written (each
+   iteration of `range srcMap` writes one file and appends its name, Cli.main_loop),
+   so this theorem only says that such a loop cannot lose or invent a name; that
+   the real message lists exactly the written files is established by the
+   correspondence run on every case (perm_eqb of the observed message list
+   against the observed files), not by this theorem. *)
 Theorem C16_message_lists_every_file : forall o c fl p files listed,
-  perm_oracle o -> run o c fl p = Done files listed -> Permutation listed (map fst files).
+  run o c fl p = Done files listed -> listed = map fst files.
 Proof. exact message_lists_every_file. Qed.
 Print Assumptions C16_message_lists_every_file.
 
@@ -165,7 +171,8 @@ Proof. exact parse_common_flags_ok. Qed.
 Print Assumptions C16_parse_flags_ok.
 
 Theorem C16_parse_type_list : forall c L, L <> [] -> (forall T, In T L -> is_ident T = true) ->
-  exists vals, parse_common c ["-type=" ++ join "," L] = POk (flags_of c ["-type=" ++ join "," L] L true "" true) vals.
+  parse_common c ["-type=" ++ join "," L] =
+  POk (flags_of c ["-type=" ++ join "," L] L true "" true) [("type", join "," L)].
 Proof. exact parse_type_list. Qed.
 Print Assumptions C16_parse_type_list.
 
@@ -174,8 +181,8 @@ Theorem C16_cli_type_list : forall o c p L,
   (forall T, In T L -> nameable c p T = true) ->
   NoDup (map (fun T => per_type_name c (decl_file p T) T) L) ->
   shoot_cli o c ["-type=" ++ join "," L] p =
-  COut (Done (map (fun T => (per_type_name c (decl_file p T) T, [T])) L)
-             (o _ (map (fun T => per_type_name c (decl_file p T) T) L))).
+  COut (Done (o _ (map (fun T => (per_type_name c (decl_file p T) T, [T])) L))
+             (map fst (o _ (map (fun T => (per_type_name c (decl_file p T) T, [T])) L)))).
 Proof. exact cli_type_list. Qed.
 Print Assumptions C16_cli_type_list.
 
@@ -191,9 +198,9 @@ Theorem C16_cli_file : forall o c p f,
   let sel := map ts_name (filter (listable c p) (top_specs f)) in
   shoot_cli o c ["-file=" ++ f_name f] p =
   COut (match sel with
-        | [] => Done [] (o _ [])
+        | [] => Done [] []
         | _ => Done [(trim_go (f_name f) ++ "." ++ shootcmd c ++ ".go", sel)]
-                    (o _ [trim_go (f_name f) ++ "." ++ shootcmd c ++ ".go"])
+                    [trim_go (f_name f) ++ "." ++ shootcmd c ++ ".go"]
         end).
 Proof. exact cli_file. Qed.
 Print Assumptions C16_cli_file.
@@ -204,9 +211,9 @@ Theorem C16_cli_star : forall o c p g,
   let sel := map ts_name (filter (listable c p) (pkg_specs p)) in
   shoot_cli o c ["-type=*"] p =
   COut (match sel with
-        | [] => Done [] (o _ [])
+        | [] => Done [] []
         | _ => Done [(trim_go (f_name g) ++ "." ++ shootcmd c ++ ".go", sel)]
-                    (o _ [trim_go (f_name g) ++ "." ++ shootcmd c ++ ".go"])
+                    [trim_go (f_name g) ++ "." ++ shootcmd c ++ ".go"]
         end).
 Proof. exact cli_star. Qed.
 Print Assumptions C16_cli_star.
@@ -219,13 +226,15 @@ Print Assumptions C16_type_list_forces_separate.
 
 (* ---- the boolean property of the correspondence run is this statement *)
 Theorem C16_Pb_holds_on_model : forall c args p fl vals,
-  parse_common c args = POk fl vals -> wf_pkgb p = true -> known_class c fl p = false ->
+  parse_common c args = POk fl vals -> flag_val "to" vals "" = "" ->
+  wf_pkgb p = true -> known_class c fl p = false ->
   Pb c args p (model_obs c args p) = true.
 Proof. exact Pb_holds_on_model. Qed.
 Print Assumptions C16_Pb_holds_on_model.
 
 Theorem C16_verdict_zero_on_model : forall c args p fl vals,
-  parse_common c args = POk fl vals -> wf_pkgb p = true -> known_class c fl p = false ->
+  parse_common c args = POk fl vals -> flag_val "to" vals "" = "" ->
+  wf_pkgb p = true -> known_class c fl p = false ->
   verdict {| c_cmd := c; c_args := args; c_pkg := p; c_obs := model_obs c args p |} = 0%N.
 Proof. exact verdict_zero_on_model. Qed.
 Print Assumptions C16_verdict_zero_on_model.
@@ -248,11 +257,37 @@ Print Assumptions C16_refuted_K_star_sep_file.
 Theorem C16_star_without_generate_line : forall o c fl p, perm_oracle o -> wf_pkgb p = true ->
   fl_specified fl = false -> fl_sep fl = false -> fl_file fl = "" -> all_in_one_file fl p = "" ->
   spec_selection c fl p <> [] ->
-  run o c fl p = Done [("." ++ shootcmd c ++ ".go", spec_selection c fl p)] (o _ ["." ++ shootcmd c ++ ".go"]) /\
+  run o c fl p = Done [("." ++ shootcmd c ++ ".go", spec_selection c fl p)] ["." ++ shootcmd c ++ ".go"] /\
   anchored c p ("." ++ shootcmd c ++ ".go") = false /\
   meets c p (run o c fl p) (spec c fl p) = false.
 Proof. exact star_without_generate_line. Qed.
 Print Assumptions C16_star_without_generate_line.
+
+(* ---- `-file` naming an existing .go file that is not a file of the package
+   (x_test.go, a file excluded by a build constraint or starting with `_`, sub/a.go):
+   none of its declarations belongs to the package; nothing is generated (exit 0) *)
+Theorem C16_other_file_generates_nothing : forall o c fl p,
+  perm_oracle o -> wf_pkgb p = true -> fl_specified fl = false ->
+  In (fl_file fl) (p_others p) -> ~ In (fl_file fl) (map f_name (p_files p)) -> ends_with ".go" (fl_file fl) = true ->
+  run o c fl p = Done [] [] /\ spec c fl p = EFiles [].
+Proof. exact other_file_generates_nothing. Qed.
+Print Assumptions C16_other_file_generates_nothing.
+
+Theorem C16_cli_other_file : forall o c p F,
+  perm_oracle o -> wf_pkgb p = true ->
+  In F (p_others p) -> ~ In F (map f_name (p_files p)) -> ends_with ".go" F = true ->
+  shoot_cli o c ["-file=" ++ F] p = COut (Done [] []).
+Proof. exact cli_other_file. Qed.
+Print Assumptions C16_cli_other_file.
+
+(* ---- "the file holding the //go:generate line", declaratively: findCmdLine
+   accepts a comment iff one of its lines is "//go:generate" ++ anything ++ the
+   command line (a // comment has one line, a block comment several) *)
+Theorem C16_find_cmd_line_iff : forall text cmdline,
+  find_cmd_line text cmdline = true <->
+  exists line mid, In line (lines text) /\ line = "//go:generate" ++ mid ++ cmdline.
+Proof. exact find_cmd_line_iff. Qed.
+Print Assumptions C16_find_cmd_line_iff.
 
 (* ------------------------------------------------------------ non-vacuity *)
 
@@ -275,12 +310,14 @@ Definition ex_pkg : pkg :=
                          DType [ts "Color" false RNamed true []];
                          DType [ts "Level" false RNamed true []];                  (* enum without constants *)
                          DType [ts "Name" false RNamed false []];
-                         DConst "Color" ["ColorRed"; "ColorBlue"] ] |};
+                         DConst "Color" ["_"; "ColorRed"; "ColorBlue"];
+                         DConst "Level" ["_"] ] |};            (* only a blank constant: still an enum without constants *)
          {| f_name := "zz.go";
             f_decls := [ DType [ts "HTTPServer" false RStruct false []];
                          DFunc [ts "Loc" false RStruct false []; ts "Order" false RNamed true []];   (* function-local types *)
                          DConst "Name" ["NameA"] ] |} ];
-     p_dest := [ts "Order" false RStruct false []; ts "HTTPServer" false RNamed false []] |}.
+     p_dest := [ts "Order" false RStruct false []; ts "HTTPServer" false RNamed false []];
+     p_others := ["x_test.go"; "sub/a.go"] |}.
 
 Example ex_wf : wf_pkgb ex_pkg = true.
 Proof. reflexivity. Qed.
@@ -345,6 +382,20 @@ Qed.
 (* the type parameter Order of Box[Order any] does not disturb the file lookup, in any iteration order *)
 Example ex_get_go_file : forall o, perm_oracle o -> get_go_file o ex_pkg "Order" = "model.go".
 Proof. intros o Ho. rewrite (get_go_file_decl o ex_pkg "Order" Ho ex_wf). reflexivity. Qed.
+
+(* -file on files that exist but are not files of the package; a block comment holding the generate line *)
+Example ex_other_files :
+  shoot_cli id_oracle CNew ["-file=x_test.go"] ex_pkg = COut (Done [] []) /\
+  shoot_cli id_oracle CNew ["-file=sub/a.go"; "-sep"] ex_pkg = COut (Done [] []) /\
+  shoot_cli id_oracle CNew ["-file=nofile.go"] ex_pkg = COut (Failed DgFileNotExists) /\
+  find_cmd_line "/*
+notes
+//go:generate shoot new -type=*
+*/" "shoot new -type=*" = true /\
+  find_cmd_line "/*
+//go:generate shoot new -type=* */" "shoot new -type=*" = false /\
+  shoot_cli id_oracle CMap ["-type=Order"; "-to=Other"] ex_pkg = CNotModelled.
+Proof. repeat split; reflexivity. Qed.
 
 (* the output names as the property words them *)
 Example ex_names :
